@@ -1,5 +1,4 @@
 package main
 
 type C06Plan struct{}
-type C11Plan struct{}
 type C12Plan struct{}
